@@ -257,7 +257,10 @@ def account(ctx, res, props, by_generator=None):
         for a in t.get('attributed', []):
             fid, prop = a[0], a[1]
             if prop in eff_props:
-                listed = [f for f in ctx.known_for() if f['id'] == fid]
+                # a known finding explains this record when it is listed for this check's property or for the property the
+                # record is about (checks also count records of neighbouring properties in some schedules)
+                listed = [f for f in ctx.findings if f['id'] == fid and f.get('status') == 'known'
+                          and (ctx.pid in f.get('properties', []) or prop in f.get('properties', []))]
                 if listed:
                     ctx.known_finding(listed[0])
                     ctx.monitor['known_finding_records'] = ctx.monitor.get('known_finding_records', 0) + 1
